@@ -1,6 +1,6 @@
 # Per-property claims; exec'd by gen_manifest.py (claim(id, technique, text, note, design_ref)).
 PENDING = "check not built yet in this framework (DESIGN.md §8 build order); no verdict is claimed until its rule set runs clean both ways"
-for _p in ["C01","C02","C03","C04","C14","C19","C20"]:
+for _p in ["C01","C02","C03","C04","C14","C19"]:
     NOT_APPLICABLE[_p] = PENDING
 
 claim("C10",
@@ -80,3 +80,9 @@ claim("C18",
   "For each of ~580 exported methods/functions (documented mutators and the certificate builder excluded by a reviewed table) no instruction in its closure — store, map update, copy destination, in-place append, sort/PutUint/rand.Read target — can write memory reachable from the receiver, an argument or a package-level variable; appends onto shared slices are admitted only where every store to the source field library-wide assigns a slice without spare capacity (Certificate.kind/len); all ~50 package-level variables (size tables, encodings, loggers, sentinels) are never written after initialisation; the library starts no goroutines. With no write to shared state, no interleaving of read-only calls can race or change a result, so schedules need not be explored — which is what the single-goroutine suite cannot show.",
   "Trusted: logger, oops, standard library and go-i2p/crypto are safe for concurrent use and do not write through the references they are given (except the listed mutators: sort.*, binary.PutUintN, rand.Read, io.ReadFull); go/ssa; VTA call graph. Flow-insensitive may-alias heap: a clean result is sound under these assumptions.",
   "DESIGN.md §5 C18")
+
+claim("C20",
+  "nil-state abstract interpretation: path-sensitive evaluation of every exported argument-free method on the zero value of its type and on every abstract value an exported parser can return together with an error (shapes extracted by evaluating the parsers on an unknown input)",
+  "Exhaustive over (exported type, exported argument-free method) pairs — ~260 incl. promoted methods — and over the distinct partially filled values (≈40 shapes, ≈800 method×shape evaluations) that the library's own parsers return with a non-nil error: any instruction that must panic on an explored path (nil dereference, field access through nil, indexing/slicing an empty slice, write to a nil map, call on a nil interface, type assertion on nil, explicit panic) is reported with type, method, shape and position; Verify* methods must not report success on the zero value. It found the KeysAndCert.Certificate and RouterInfo capability/version panics (fixed in 58d8667). Methods with parameters, and callees that receive only unknown arguments, are not explored.",
+  "Trusted: go/ssa. External calls return unknown values whose dereference is never reported; library callees are explored only while some argument carries known state (definite nil or a tracked object). Loops are unrolled once and then evaluated with unknown conditions for the rest of that loop.",
+  "DESIGN.md §5 C20")
